@@ -100,7 +100,7 @@ func waitSync(ch chan struct{}) string {
 const crashNewVid = 1000000
 
 func init() {
-	register(&Suite{Name: "crash", Parallel: 6, Gen: genCrash, Exec: execCrash,
+	register(&Suite{Name: "crash", Parallel: 3, Gen: genCrash, Exec: execCrash,
 		Rule: "ingest histories (batches, buffer flushes, rotations) × EVERY crash point (statement boundary) of the flush/rotate/segmeta/suffix/checksum-file writer functions, grouped by the number of completed model steps; per point: process A killed at the point, process B restarted on the same directory, 5 queries, one more ingest+flush, 2 queries; non-trivial = at least one flush had completed or was in flight"})
 }
 
@@ -350,9 +350,12 @@ func crashPar() int {
 	if n, err := strconv.Atoi(os.Getenv("VERIF_CRASH_PAR")); err == nil && n > 0 {
 		return n
 	}
-	n := runtime.NumCPU()
+	n := runtime.NumCPU() / 4 // the machine is shared with other checks
 	if n < 2 {
 		n = 2
+	}
+	if n > 4 {
+		n = 4
 	}
 	return n
 }
@@ -378,14 +381,14 @@ func crashTmp() string {
 func childEnv(extra ...string) []string {
 	var env []string
 	for _, e := range os.Environ() {
-		if strings.HasPrefix(e, "VERIF_CRASH_") || strings.HasPrefix(e, "VERIF_DATA_DIR=") || strings.HasPrefix(e, "VERIF_WAIT_SYNC=") || strings.HasPrefix(e, "GOMAXPROCS=") {
+		if strings.HasPrefix(e, "VERIF_CRASH_") || strings.HasPrefix(e, "VERIF_DATA_DIR=") || strings.HasPrefix(e, "VERIF_WAIT_SYNC=") || strings.HasPrefix(e, "GOMAXPROCS=") || strings.HasPrefix(e, "GOMEMLIMIT=") {
 			continue
 		}
 		env = append(env, e)
 	}
 	// two OS threads per child: many children run side by side, and AppendWipToSegfile sizes its
 	// per-flush work-buffer loop by GOMAXPROCS (fewer, not different, crash points)
-	return append(append(env, "GOMAXPROCS=2"), extra...)
+	return append(append(env, "GOMAXPROCS=2", "GOMEMLIMIT=768MiB"), extra...)
 }
 
 func runChildA(h *crashHist, dir string, k int) (rc int, stderr string) {
@@ -837,8 +840,39 @@ func runPoint(h *crashHist, d *crashDry, k int) (out string, fails []PropFail, p
 		return "childA-log-inconsistent", nil, p, false
 	}
 	p = pts[len(pts)-1]
-	a := runChildB(h, dir)
+	// the restarted process sees nothing but the data directory: crash points that leave byte-identical
+	// directories (statement boundaries without a file-system call in between) share one restart
+	v, _ := crashBCache.LoadOrStore(h.key+"\x00"+dirState(filepath.Join(dir, "d")), &crashB{})
+	cb := v.(*crashB)
+	cb.once.Do(func() { cb.a = runChildB(h, dir) })
+	a := cb.a
 	return a.out(h), checkPoint(h, p, &a), p, true
+}
+
+type crashB struct {
+	once sync.Once
+	a    crashAnswer
+}
+
+var crashBCache sync.Map
+
+// every file and directory below the data dir: relative name + content
+func dirState(root string) string {
+	hsh := sha1.New()
+	filepath.Walk(root, func(p string, fi os.FileInfo, err error) error {
+		if err != nil {
+			return nil
+		}
+		rel, _ := filepath.Rel(root, p)
+		if fi.IsDir() {
+			fmt.Fprintf(hsh, "D %s\n", rel)
+			return nil
+		}
+		b, _ := os.ReadFile(p)
+		fmt.Fprintf(hsh, "F %s %d %x\n", rel, len(b), sha1.Sum(b))
+		return nil
+	})
+	return fmt.Sprintf("%x", hsh.Sum(nil))
 }
 
 func execCrash(line string) Result {
